@@ -22,6 +22,7 @@ import Driver.Dsf
 import Driver.Asf
 import Driver.OggInject
 import Driver.InfoA
+import Driver.InfoB
 open Driver
 
 def dispatch (line : String) : String :=
@@ -52,6 +53,7 @@ def dispatch (line : String) : String :=
     | "asf" => asfOp a
     | "ogginject" => ogginjectOp a
     | "infoa" => infoAOp a
+    | "infob" => infoBOp a
     | "flacinfo" => flacInfoOp a
     | "ping" => "pong"
     | _ => "bad-op"
